@@ -45,7 +45,7 @@ Proof.
   - destruct t; try discriminate; inversion H; subst.
     + apply call4_ary. apply ntok_children. exact N.
     + apply call4_doc. apply ntok_obj_of. exact N.
-  - inversion H; subst. apply call4_doc. apply (ntok_doc keys). exact N.
+  - destruct keys as [|k0 keys]; inversion H; subst; [apply call4_doc; apply (ntok_doc []); exact N | apply call4_nil].
   - inversion H; subst. apply call4_ary. apply ntok_ary. exact N.
 Qed.
 
@@ -171,8 +171,10 @@ Qed.
 (* deepCopy: the members sorted, names and strings HTML-escaped *)
 Lemma ntok_deep_copy4 g v : ntok v -> ntok (fst (deep_copy4 g v)).
 Proof.
-  intro N. destruct v as [|t|ks obj|ns]; cbn [deep_copy4 fst]; try exact I;
-    apply ntok_raw; apply tok_escape; apply tok_render4; exact N.
+  intro N. destruct (deep_copy4_cases g v) as [E|[E|E]]; rewrite E.
+  - exact I.
+  - apply (ntok_doc [B "null"]). constructor.
+  - apply ntok_raw; apply tok_escape; apply tok_render4; exact N.
 Qed.
 
 (* ---- one operation ---- *)
@@ -410,8 +412,8 @@ Lemma render4_depth n : ngood4 n -> Text.tdepth (render4 n) = odepth (aval4 n).
 Proof.
   induction n as [|t|keys obj IH|ns IH] using node_rect'; intro G.
   - reflexivity.
-  - apply ngood4_raw in G as [_ [T _]]. cbn [render4 aval4]. symmetry. apply den_depth. exact T.
-  - apply ngood4_doc in G as [N [_ Gs]]. rewrite render4_doc, aval4_doc, tdepth_obj, odepth_obj, maxd_map. cbn [snd].
+  - apply ngood4_raw in G as [T _]. cbn [render4 aval4]. symmetry. apply den_depth. exact T.
+  - apply ngood4_doc in G as [-> [N [_ Gs]]]. rewrite render4_doc, aval4_doc, tdepth_obj, odepth_obj, maxd_map. cbn [snd].
     f_equal. unfold amap4. rewrite maxd_map. cbn [snd].
     rewrite (maxd_same_members (fun kv : bytes * tjson => Text.tdepth (snd kv)) (sort4 (msnd render4 obj)) (msnd render4 obj)).
     + unfold msnd. rewrite maxd_map. cbn [snd]. apply maxd_ext_in. intros kv Hk.
@@ -454,6 +456,7 @@ Theorem api_apply4_output_bytes g indent p doc t :
   g_limit g = 0%Z ->
   parse doc = Some t -> root_container t = true -> tnodup t = true -> tplain t -> tkeys t ->
   Forall op_dom4 p -> Forall op_tok p -> no_deviation (d4 g) (den t) (map den_op p) = true ->
+  (forall c, api_start4 t = Some c -> no_null_copy4 g (mkState4 c 0) p = true) ->
   wsb indent = true ->
   match rfc_apply (d4 g) (den t) (map den_op p) with
   | Done j =>
@@ -464,14 +467,14 @@ Theorem api_apply4_output_bytes g indent p doc t :
   | Failed i cz => exists e, api_apply4 g indent p doc = Err4 (Some i) e /\ cause_rel cz e
   end.
 Proof.
-  intros Lim Pd RC T Pl Ks D A ND W.
-  pose proof (api_apply4_sim g indent p doc t Lim Pd RC T Pl Ks D ND) as Sim.
+  intros Lim Pd RC T Pl Ks D A ND NC W.
+  pose proof (api_apply4_sim g indent p doc t Lim Pd RC T Pl Ks D ND NC) as Sim.
   pose proof (parse_tlit _ _ Pd) as L.
   assert (R : raw4 t) by (split; [destruct t; discriminate | repeat split; auto]).
-  destruct (start4_good t RC R) as [c [S1 [S2 S3]]]. fold (start4 t) in S1.
+  destruct (start4_good t RC R) as [c [S1 [S2 S3]]]. pose proof (NC c S1) as NCc. fold (start4 t) in S1.
   assert (V : veq (sval4 (mkState4 c 0)) (den t)).
   { unfold sval4. cbn [r4]. rewrite S3. apply veq_refl. exact T. }
-  pose proof (apply4_rfc g p 0%nat (mkState4 c 0) (den t) Lim S2 V D ND) as AS. unfold rfc_apply in *.
+  pose proof (apply4_rfc g p 0%nat (mkState4 c 0) (den t) Lim S2 V D ND NCc) as AS. unfold rfc_apply in *.
   destruct (rfc_apply_from (d4 g) 0 (den t) (map den_op p)) as [j|i cz]; [|exact Sim]. clear Sim.
   intro Dj. destruct AS as [st' [A1 [A2 A3]]].
   assert (NT : call4 (r4 st')).
@@ -499,15 +502,16 @@ Corollary api_apply4_output_rfc g indent p doc t j :
   g_limit g = 0%Z ->
   parse doc = Some t -> root_container t = true -> tnodup t = true -> tplain t -> tkeys t ->
   Forall op_dom4 p -> Forall op_tok p -> no_deviation (d4 g) (den t) (map den_op p) = true ->
+  (forall c, api_start4 t = Some c -> no_null_copy4 g (mkState4 c 0) p = true) ->
   wsb indent = true ->
   rfc_apply (d4 g) (den t) (map den_op p) = Done j -> (odepth j <= max_depth)%N ->
   exists out t', api_apply4 g indent p doc = Out4 out /\ parse out = Some t' /\ veq (den t') j /\ valid_gen out = true.
 Proof.
-  intros Lim Pd RC T Pl Ks D A ND W E Dj.
-  pose proof (api_apply4_output_bytes g indent p doc t Lim Pd RC T Pl Ks D A ND W) as H. rewrite E in H.
+  intros Lim Pd RC T Pl Ks D A ND NC W E Dj.
+  pose proof (api_apply4_output_bytes g indent p doc t Lim Pd RC T Pl Ks D A ND NC W) as H. rewrite E in H.
   destruct (H Dj) as [out [t' [H1 [H2 [H3 [H4 [H5 _]]]]]]]. exists out, t'. split; [exact H1|]. split; [exact H2|].
   split; [|exact H5]. split; [exact H3|]. split; [exact H4|].
-  pose proof (api_apply4_sim g indent p doc t Lim Pd RC T Pl Ks D ND) as Sim. rewrite E in Sim.
+  pose proof (api_apply4_sim g indent p doc t Lim Pd RC T Pl Ks D ND NC) as Sim. rewrite E in Sim.
   destruct Sim as [n [_ [[_ [_ Nj]] _]]]. exact Nj.
 Qed.
 
